@@ -428,6 +428,12 @@ class Engine:
             return SV("cls", Val.cv(v))
         st.assume(Val.is_RefV(v))
         r = Val.rv(v)
+        if "|" in hint and "[" not in hint:
+            # union of exact repo classes: the value stays dynamic, attribute access forks on the class
+            st.assume(r >= 1)
+            st.assume(r <= self.alloc_bound(st, r))
+            st.assume(z3.Or(*[clsof(r) == self._register_class(c) for c in hint.split("|")]))
+            return SV("val", v, h=hint)
         return self.from_ref(st, r, hint)
 
     def alloc_bound(self, st, r):
@@ -488,6 +494,16 @@ class Engine:
                     if kname != "*" and not kname.endswith("?"):
                         st.assume(z3.Select(self.hget(st, "$dom", r), Val.StrV(z3.StringVal(kname))))
             return SV("dict", r, h=inner)
+        if hint in ("pmap", "pset") or hint.startswith("pmap["):
+            # persistent map / set (pyrsistent): an immutable dictionary object (see pyrx.py)
+            st.assume(clsof(r) == self.ct.id("dict"))
+            inner = hint[5:-1] if hint.startswith("pmap[") else None
+            if inner and "=" in inner:
+                for part in inner.split(";"):
+                    kname = part.split("=", 1)[0]
+                    if kname != "*" and not kname.endswith("?"):
+                        st.assume(z3.Select(self.hget(st, "$dom", r), Val.StrV(z3.StringVal(kname))))
+            return SV("dict", r, h=inner, x="pmap")
         if hint.startswith("role:"):
             return SV("obj", r, h=hint[5:])
         if hint == "Exc":
@@ -504,6 +520,11 @@ class Engine:
 
     def sym(self, st, name, hint):
         """fresh symbolic input of the hinted type"""
+        if isinstance(hint, str) and "|" in hint and "[" not in hint:
+            return self.from_val(st, self.fresh(name, Val), hint)
+        if isinstance(hint, (tuple, list)):
+            # a tuple display of known length (e.g. `return [task], parser`)
+            return SV("tuple", None, x=[self.sym(st, "%s_%d" % (name, i), h) for i, h in enumerate(hint)])
         if hint in (None, "Any", "val") or hint.startswith("Opt["):
             v = self.fresh(name, Val)
             if hint and hint.startswith("Opt["):
@@ -559,6 +580,11 @@ class Engine:
                 return self.from_val(st, v.t, h[4:-1])
             if self.implied(st, v.t == NoneV):
                 return SV("none")
+            return v
+        if h and "|" in h and "[" not in h:
+            for c in h.split("|"):
+                if self.implied(st, clsof(Val.rv(v.t)) == self._register_class(c)):
+                    return SV("inst", Val.rv(v.t), h=c)
             return v
         if h:
             return self.from_val(st, v.t, h)
@@ -696,6 +722,12 @@ class Engine:
             la = self.from_val(st, self.hget(st, "_level", a.t), "list")
             lb = self.from_val(st, self.hget(st, "_level", b.t), "list")
             return self.seq_of(st, la) == self.seq_of(st, lb)
+        for x, y in ((a, b), (b, a)):
+            if x.k == "val" and x.h == "Opt[TaskLevel]" and y.k == "inst" and y.h == "TaskLevel":
+                # None == TaskLevel is False (TaskLevel.__eq__ compares classes first); otherwise by level
+                lx = self.hget(st, "$seq", Val.rv(self.hget(st, "_level", Val.rv(x.t))))
+                ly = self.hget(st, "$seq", Val.rv(self.hget(st, "_level", y.t)))
+                return z3.And(x.t != NoneV, lx == ly)
         if a.k == b.k and a.k in ("int", "bool", "str", "bytes", "float", "cls"):
             return a.t == b.t
         if a.k == "none" and b.k == "none":
